@@ -127,7 +127,13 @@ def evalOracle (src : Bytes) (seed : Nat) (impl : String) : List String :=
       | none => ["c05-parse"]
       | some st =>
         let isJoin := parsed.1.any fun | .tabular t => tabularHasJoin t | _ => false
-        let tag := if CompileOracle.nameCapture parsed.1 then "c05-name-capture" else if isJoin then "c03" else "c02"
+        -- known finding K5: a let named like a join alias is resolved by the writer but still
+        -- counted as "mentions that side" when the join-mode plain equality is chosen
+        let letNamedAlias := parsed.1.any fun
+          | .let_ _ (some n) _ _ => n.name == leftAlias || n.name == rightAlias
+          | _ => false
+        let tag := if CompileOracle.nameCapture parsed.1 then "c05-name-capture"
+          else if letNamedAlias && isJoin then "c06-let-named-join-alias" else if isJoin then "c03" else "c02"
         let bad := (List.range 4).filterMap fun i =>
           let db := Rel.mkDB (seed + 1000 * i)
           match Rel.interpProgram src db parsed.1 with
@@ -138,7 +144,7 @@ def evalOracle (src : Bytes) (seed : Nat) (impl : String) : List String :=
         match bad with
         | [] => []
         | (i, want, got) :: _ =>
-          [(if tag == "c05-name-capture" then tag else tag ++ "-result-differs") ++ " db=" ++ toString (seed + 1000 * i) ++ " pipeline:" ++ (showTable want).replace " " "_" ++
+          [(if tag == "c05-name-capture" || tag == "c06-let-named-join-alias" then tag else tag ++ "-result-differs") ++ " db=" ++ toString (seed + 1000 * i) ++ " pipeline:" ++ (showTable want).replace " " "_" ++
             " sql:" ++ (showTable got).replace " " "_"]
   | _ => []
 
